@@ -75,6 +75,11 @@ pub struct Case {
     /// a file the user includes from the command line (`-- -include <path>`), not an input header
     #[serde(default)]
     pub cmdline_include: Option<usize>,
+    /// an item filter that changes what is *emitted* but not what is *read*:
+    /// (kind, file index) with kind 0 = --blocklist-file <that file>, 1 = --blocklist-file .*,
+    /// 2 = --allowlist-file <that file>, 3 = --blocklist-type S_.*, 4 = --allowlist-type S_<i>
+    #[serde(default)]
+    pub filter: Option<(u8, usize)>,
 }
 
 const DIRS: &[&str] = &["top", "inc", "sys dir", "q", "deep/er", "top/sub"];
@@ -397,10 +402,11 @@ fn case_strategy(max_files: usize) -> BoxedStrategy<Case> {
                 0u8..8,
                 proptest::bool::weighted(0.2),
                 proptest::option::weighted(0.2, 0..n),
+                proptest::option::weighted(0.3, (0u8..5, 0..n)),
             )
         })
-        .prop_map(|(files, inputs, relative_input, depfile_target, env_target, env_extra, symlink_dir, cmdline_include)| {
-            let mut c = Case { files, inputs, relative_input, depfile_target, env_target, env_extra, symlink_dir, cmdline_include };
+        .prop_map(|(files, inputs, relative_input, depfile_target, env_target, env_extra, symlink_dir, cmdline_include, filter)| {
+            let mut c = Case { files, inputs, relative_input, depfile_target, env_target, env_extra, symlink_dir, cmdline_include, filter };
             normalise(&mut c);
             c
         })
@@ -413,7 +419,7 @@ impl Property for C17 {
         "C17"
     }
     fn rule(&self) -> String {
-        "generated include DAGs of 2..14 files in 6 directories (names with spaces, '#', '$', ':', quote, '=', non-ASCII), edges in five include forms (relative incl. `..`, -I, -iquote, -isystem, absolute), six preprocessor guards (active and inactive), repeated inclusion, include guards or #pragma once, a symlinked search directory, 1..3 input headers (absolute or relative to the working directory), depfile target names with spaces and backslashes, TARGET / BINDGEN_EXTRA_CLANG_ARGS[_<target>] set or unset. Non-trivial = a tree with >=1 include in an inactive region and >=1 file reached by two paths; distinct by tree hash".into()
+        "generated include DAGs of 2..14 files in 6 directories (names with spaces, '#', '$', ':', quote, '=', non-ASCII), edges in five include forms (relative incl. `..`, -I, -iquote, -isystem, absolute), six preprocessor guards (active and inactive), repeated inclusion, include guards or #pragma once, a symlinked search directory, 1..3 input headers (absolute or relative to the working directory), depfile target names with spaces and backslashes, TARGET / BINDGEN_EXTRA_CLANG_ARGS[_<target>] set or unset, and in 30 % of cases an item filter that changes what is emitted but not what is read (--blocklist-file of one file or of everything, --allowlist-file, --blocklist-type, --allowlist-type). Non-trivial = a tree with >=1 include in an inactive region and >=1 file reached by two paths; distinct by tree hash".into()
     }
     fn assumptions(&self) -> Vec<String> {
         vec![
@@ -538,6 +544,20 @@ impl Property for C17 {
         // the depfile target is the output path as given
         std::fs::create_dir_all(env.dir.join("o/dir")).ok();
         flags.push(format!("{{DIR}}/o/{target_name}"));
+        if let Some((kind, k)) = c.filter {
+            let k = k % c.files.len();
+            let file_re = format!(".*{}", regex::escape(&file_base(&c, k)));
+            let (flag, val) = match kind % 5 {
+                0 => ("--blocklist-file", file_re),
+                1 => ("--blocklist-file", ".*".to_string()),
+                2 => ("--allowlist-file", file_re),
+                3 => ("--blocklist-type", "S_.*".to_string()),
+                _ => ("--allowlist-type", format!("S_{k}")),
+            };
+            flags.push(flag.into());
+            flags.push(val);
+            out.class(format!("item-filter:{flag}"));
+        }
         let mut clang_args = lang.clone();
         clang_args.extend(sargs.iter().cloned());
         if c.env_target.map(|t| ENV_TARGETS[t % ENV_TARGETS.len()]) == Some("weird-target") {
